@@ -61,7 +61,28 @@ def gen_case(rs, tier, prop="C19"):
                 faults.append({"kind": "stdout.epipe", "at": frng.randint(0, 1500)})
             else:
                 faults.append({"kind": "fs.enospc", "at": frng.randint(0, 12), "arg": frng.choice([0.0, 0.5])})
-    return {"design": ast, "knobs": knobs, "history": gen_history(W.stream(rs, "history")), "faults": faults, "tier": tier}
+    history = gen_history(W.stream(rs, "history"))
+    vrng = W.stream(rs, "variants")
+    for op in history:
+        if op["op"] in ("csv", "tuples", "dicts"):
+            # the caller may hand over an equal experiment with its keys in another order (a re-loaded or re-built dict) ...
+            op["reorder"] = vrng.random() < 0.3
+        if op["op"] == "csv":
+            # ... and the target directory may already hold an older, longer file of the same name
+            op["stale"] = vrng.random() < 0.3
+    crng = W.stream(rs, "comb")
+    if crng.random() < 0.2:
+        # the same histories over blocks built with the combinators (MultiCrossBlock, Repeat, Merge, Nest)
+        from .. import gencomb
+        cfg2 = dict(cfg, combinators=True)
+        a2 = gencomb.gen_combinator_design(W.stream(rs, "design-comb"), cfg2, tier)
+        if a2 is not None:
+            ast = a2
+    arng = W.stream(rs, "abort")
+    if arng.random() < 0.12:
+        # the user interrupts one call of the history at an arbitrary line (KeyboardInterrupt-like)
+        faults.append({"kind": "abort@line", "op": arng.randrange(len(history) - 1), "at": int(math.exp(arng.uniform(0, math.log(200000))))})
+    return {"design": ast, "knobs": knobs, "history": history, "faults": faults, "tier": tier}
 
 
 def snapshot(blk):
@@ -99,6 +120,7 @@ def run_history(case):
         sm.install()
         exps = {}
         first_cols = None
+        aborts = {f["op"]: f["at"] for f in (case.get("faults") or []) if f["kind"] == "abort@line"}
         for oi, op in enumerate(case["history"]):
             kind = op["op"]
             faults_before = sum(w.fault_fired.values())
@@ -106,7 +128,7 @@ def run_history(case):
             w.draw_cap = w.rng.draws + 20000
             w.peer_calls_cap = w.counters.get("peer.solve", 0) + 60
             try:
-                with common.time_limit(2):
+                with common.time_limit(2 if oi not in aborts else 6), common.LineAbort(w, aborts.get(oi) if not (kind == "synth" and op["strategy"] == "SMGen") else None):
                     if kind == "synth":
                         if op["strategy"] == "SMGen":
                             res, smerr = sm.run(lambda: sp.synthesize_trials(blk, op["n"], sp.SMGen))
@@ -122,6 +144,12 @@ def run_history(case):
                         if not e:
                             obs["ops"].append(kind + ":noexp")
                             continue
+                        if op.get("reorder"):
+                            e = [{k: list(x[k]) for k in reversed(list(x))} for x in e]
+                            w.count("conversion-on-reordered-experiment")
+                        if op.get("stale"):
+                            w.fs.files["%s_0.csv" % op["prefix"]] = "stale,header,of,an,older,run\n" + "a,b,c,d,e,f\n" * 40
+                            w.count("csv-over-stale-file")
                         if kind == "print":
                             sp.print_experiments(blk, e)
                         elif kind == "tabulate":
@@ -146,6 +174,8 @@ def run_history(case):
                 obs["ops"].append(kind + ":cap")
                 exps.pop(op.get("out"), None)
                 continue
+            except smworld.SimAbort as e:
+                err = e             # the call was interrupted; everything after it is judged as usual
             except Exception as e:   # noqa
                 err = e
             faulted_now = sum(w.fault_fired.values()) > faults_before
@@ -259,6 +289,9 @@ def shrink_candidates(case):
             continue
         c = dict(case)
         c["history"] = h[:i] + h[i + 1:]
+        # abort faults name the operation they interrupt by index: keep them pointing at the same operation
+        c["faults"] = [dict(f, op=f["op"] - 1) if f["kind"] == "abort@line" and f["op"] > i else f
+                       for f in (case.get("faults") or []) if not (f["kind"] == "abort@line" and f["op"] == i)]
         if any(o["op"] == "synth" for o in c["history"]):
             yield c
     yield from common.shrink_case(case)
